@@ -325,6 +325,72 @@ def x_tables():
     return out
 
 
+# ------------------------------------------------------------------ family XC: connector chains with dead ends
+def xc_connectors(forms):
+    """parent pa_0 (A0, gap, A1), child ch_1 on pa_0, grandchild gc_2 on ch_1; forms[i] in "s" (string) | "d" (dict).
+    Child and grandchild have live entries and entries that dead-end: in a gap of the parent (pa_0:2), past the parent's
+    end (pa_0:4), in a pin the child does not define (ch_1:9), and in child pins that lead on to those dead ends."""
+    pa = {"name": "pa", "number": 0, "conn": None,
+          "io": "A0 - A1" if forms[0] == "s" else {"1": "A0", "3": "A1"}}
+    ch = {"name": "ch", "number": 1, "conn": ["pa", 0],          # 1 -> pa:1 (A0), 2 -> pa:2 (gap), 3 -> pa:4 (past end), 4 -> pa:3 (A1)
+          "io": "1 2 4 3" if forms[1] == "s" else {"1": "1", "2": "2", "3": "4", "4": "3"}}
+    gc = {"name": "gc", "number": 2, "conn": ["ch", 1],          # 1 -> ch:4 (A1), 2 -> ch:2 (gap), 3 -> ch:3 (past end), 4 -> ch:1 (A0), 5 -> ch:9 (undefined)
+          "io": "4 2 3 1 9" if forms[2] == "s" else {"1": "4", "2": "2", "3": "3", "4": "1", "5": "9"}}
+    return [pa, ch, gc]
+
+
+# (connector, pin) references: live ones with the physical pin they reach, dead ones with where the chain ends
+XC_LIVE = [(("pa", 0), "1", "A0"), (("pa", 0), "3", "A1"), (("ch", 1), "1", "A0"), (("ch", 1), "4", "A1"),
+           (("gc", 2), "1", "A1"), (("gc", 2), "4", "A0")]
+XC_DEAD = [(("pa", 0), "2", "first hop: gap"), (("pa", 0), "4", "first hop: past the end"),
+           (("ch", 1), "2", "parent gap"), (("ch", 1), "3", "past the parent's end"),
+           (("gc", 2), "2", "grandparent gap"), (("gc", 2), "3", "past the grandparent's end"),
+           (("gc", 2), "5", "pin the parent does not define")]
+
+
+def xc_tables():
+    """every connector form combination x every dead reference x Pins (width 1, 2) / DiffPairs (p or n side, width 1, 2)
+    that contains it (other positions: a live reference to A1 through the same connector), written with conn= where the
+    whole leaf is on one connector and as raw "conn_n:pin" names otherwise; + a probe on A1 and a live control resource"""
+    out = []
+    for forms in itertools.product("sd", repeat=3):
+        conns = xc_connectors(forms)
+        for conn, pin, _why in XC_DEAD:
+            live_same = next(p for c, p, phys in XC_LIVE if c == conn and phys == "A1")
+            live_other = next((c, p) for c, p, phys in XC_LIVE if c != conn and phys == "A0")
+            variants = []
+
+            def leaf(kind, names_sets, use_conn):
+                base = {"dir": "io", "invert": False, "clock_mhz": None, "attrs": None}
+                def fmt(ns):
+                    return [n if use_conn else f"{conn[0]}_{conn[1]}:{n}" for n in ns]
+                if kind == "pins":
+                    return {"kind": "pins", "names": fmt(names_sets[0]), "conn": list(conn) if use_conn else None, **base}
+                return {"kind": "diff", "p": fmt(names_sets[0]), "n": fmt(names_sets[1]), "conn": list(conn) if use_conn else None, **base}
+            for use_conn in (True, False):
+                variants.append(leaf("pins", [[pin]], use_conn))
+                variants.append(leaf("pins", [[live_same, pin]], use_conn))
+                variants.append(leaf("diff", [[pin], [live_same]], use_conn))
+                variants.append(leaf("diff", [[live_same], [pin]], use_conn))
+            # width 2 with the second live pin on another connector (raw names only)
+            raw = f"{conn[0]}_{conn[1]}:{pin}"
+            other = f"{live_other[0][0]}_{live_other[0][1]}:{live_other[1]}"
+            same = f"{conn[0]}_{conn[1]}:{live_same}"
+            base = {"dir": "io", "invert": False, "clock_mhz": None, "attrs": None, "conn": None}
+            variants.append({"kind": "pins", "names": [raw, other], **base})
+            variants.append({"kind": "diff", "p": [other, same], "n": ["A2", raw], **base})
+            variants.append({"kind": "diff", "p": [raw, same], "n": ["A2", other], **base})
+            for k, node in enumerate(variants):
+                ctl_conn, ctl_pin, _ = XC_LIVE[(k + len(out)) % len(XC_LIVE)]
+                control = {"kind": "pins", "names": [ctl_pin], "conn": list(ctl_conn), "dir": "io", "invert": False,
+                           "clock_mhz": None, "attrs": None}
+                res = [{"name": "r", "number": 0, "node": node if k % 2 else group([("a", leaf_pins(["A3"], [0], "io")), ("b", node)])},
+                       {"name": "q", "number": 0, "node": leaf_pins(["A1"], [0], "io")},
+                       {"name": "q", "number": 1, "node": control}]
+                out.append({"connectors": conns, "resources": res})
+    return out
+
+
 # ------------------------------------------------------------------ compact tags (used in violation signatures)
 def node_tag(node):
     if node["kind"] == "group":
